@@ -10,9 +10,38 @@ namespace AGV.Lemmas.HostileNum
 open AGV.Gen.IntScalars AGV.Model.Scalars AGV.Model.HostileNum AGV.Lemmas.Scalars
 open AGV.Spec.Scalars (GValue inIntDomain)
 
-/-- `add_system_types` registers `i32` first among the integer scalars: `Int` positions are
-    validated with `is_i64()` -/
-theorem registered_i64 : registeredIntValidator = .i64 := by decide
+/-- the guard of the registered `Int` validator, as far as it matters: `add_system_types` registers
+    a plain (not NonZero) type first whose `is_valid` is `is_i64()` or `is_i64() || is_u64()` -/
+theorem registered_guard :
+    registeredIntEntry.map (fun e => (e.nonZero, e.isValid, e.isValidOr)) = some (false, .i64, []) ∨
+    registeredIntEntry.map (fun e => (e.nonZero, e.isValid, e.isValidOr)) = some (false, .i64, [.u64]) := by
+  decide
+
+/-- WHICH integers the validator registered under `Int` lets through: those `as_i64()` can read
+    (the pinned tree) or every integer a `Number` holds (after the repair of finding
+    C07-int-validator-of-first-registered) — whichever the source says -/
+theorem registeredIntValid_cases :
+    (∀ i, registeredIntValid (.int i) = readableB .i64 i) ∨
+    (∀ i, registeredIntValid (.int i) = (readableB .i64 i || readableB .u64 i)) := by
+  rcases registered_guard with h | h
+  · left; intro i; unfold registeredIntValid
+    cases he : registeredIntEntry with
+    | none => simp [he] at h
+    | some e =>
+      simp only [he, Option.map_some, Option.some.injEq, Prod.mk.injEq] at h
+      obtain ⟨h1, h2, h3⟩ := h
+      simp [isValidInt, h1, h2, h3]
+  · right; intro i; unfold registeredIntValid
+    cases he : registeredIntEntry with
+    | none => simp [he] at h
+    | some e =>
+      simp only [he, Option.map_some, Option.some.injEq, Prod.mk.injEq] at h
+      obtain ⟨h1, h2, h3⟩ := h
+      simp [isValidInt, h1, h2, h3]
+
+theorem registeredIntValid_nonint (v : GValue) (h : ∀ i, v ≠ .int i) : registeredIntValid v = false := by
+  unfold registeredIntValid
+  cases v <;> simp at h <;> split <;> simp [isValidInt, pinnedValidInt]
 
 /-- no value of any kind makes an integer scalar of the source panic -/
 theorem parseInt_ne_panic (t : Entry) (ht : t ∈ table) (v : GValue) : parseInt t v ≠ .panic := by
@@ -55,25 +84,26 @@ theorem lexNumber_int (n : Int) (h : i64Min ≤ n ∧ n ≤ u64Max) : lexNumber 
   simp [lexNumber, h]
 
 theorem answerInt_float (t : Entry) (b : Nat) : answerInt t (.float b) = .error := by
-  simp [answerInt, validNumber]
+  simp [answerInt, registeredIntValid_nonint (.float b) (by simp)]
 
 /-- accepted: exactly the integers of the type's range that the registered `Int` validator lets through -/
-theorem numAnswer_int_accept (t : Entry) (ht : t ∈ table) (n : Int) (hd : inIntDomain t.name n) (hv : n ≤ i64Max) :
+theorem numAnswer_int_accept (t : Entry) (ht : t ∈ table) (n : Int) (hd : inIntDomain t.name n)
+    (hv : registeredIntValid (.int n) = true) :
     numAnswer (.int t) n = .data (.int n) := by
   have hp := parseInt_in t ht n hd
   have hb := readable_bounds _ _ (parseInt_ok_readable t n n hp)
-  simp only [numAnswer, answerValue, lexNumber_int n hb, answerInt, registered_i64, validNumber, hp]
-  simp [readable, hb.1, hv]
+  simp [numAnswer, answerValue, lexNumber_int n hb, answerInt, hv, hp]
 
-theorem numAnswer_int_reject (t : Entry) (ht : t ∈ table) (n : Int) (h : ¬ (inIntDomain t.name n ∧ n ≤ i64Max)) :
+theorem numAnswer_int_reject (t : Entry) (ht : t ∈ table) (n : Int)
+    (h : ¬ (inIntDomain t.name n ∧ registeredIntValid (.int n) = true)) :
     numAnswer (.int t) n = .error := by
   by_cases hb : i64Min ≤ n ∧ n ≤ u64Max
-  · simp only [numAnswer, answerValue, lexNumber_int n hb, answerInt, registered_i64, validNumber]
-    by_cases hv : n ≤ i64Max
+  · simp only [numAnswer, answerValue, lexNumber_int n hb, answerInt]
+    by_cases hv : registeredIntValid (.int n) = true
     · have hd : ¬ inIntDomain t.name n := fun hd => h ⟨hd, hv⟩
       obtain ⟨e, he⟩ := parseInt_out t ht n hd
-      rw [he]; simp
-    · simp [readable, hv]
+      simp [hv, he]
+    · simp [hv]
   · simp only [numAnswer, answerValue, lexNumber, hb, if_false]
     exact answerInt_float t 0
 
